@@ -94,7 +94,7 @@ BUDGET = {"quick": 100.0, "thorough": 600.0}
 
 def plan(tier, seed):
     q = tier == "quick"
-    P = 3 if q else 4
+    P = 3 if q else 5
     return [dict(scenario="async", params=dict(form="map"), bounds=dict(P=P)),
             dict(scenario="async", params=dict(form="map", cancel=True), bounds=dict(P=P)),
             dict(scenario="async", params=dict(form="flat_map"), bounds=dict(P=P)),
